@@ -307,6 +307,8 @@ def accepts(ts, d, strict):  # noqa: C901, PLR0911, PLR0912
         if v != REJECT and h in ("Set", "FrozenSet", "AbstractSet", "MutableSet"):
             if unwrap(ts[1])[0] in ("Any", "object") and not all(_hashable(x) for x in items):
                 return REJECT    # an unhashable element cannot be loaded "into the origin"
+            if any(type(x) is Decimal and x.is_snan() for x in items):
+                return UNSPEC    # a signaling NaN passes the Decimal loader but no set can hold it
             for i, x in enumerate(items):
                 for y in items[i + 1:]:
                     try:
